@@ -13,6 +13,7 @@ from __future__ import annotations
 import ast
 import itertools
 import json
+import os
 import subprocess
 import time
 from typing import Any, Dict, List, Optional, Set, Tuple
@@ -78,9 +79,8 @@ def machine() -> Dict[str, Any]:
     writers = sorted(n for n, d in info.items() if d["writes"])
     clears = {w: sorted(info[w]["clears"]) for w in writers}
     known = {"_find_path", "_plan_conversion"}
-    if not set(cached) <= known:
-        raise symnum.HarnessError(f"cached functions reading the declaration tables that the model does "
-                                  f"not know: {sorted(set(cached) - known)}")
+    # any other cached reader of the tables gets the generic stale-row model (search_generic)
+    generic = sorted(set(cached) - known)
     for needed in ("convert", "_plan_conversion", "_find_path", "_inline_paths", "equate", "translate"):
         if needed not in info:
             raise symnum.HarnessError(f"conversions.{needed} not found: the cache model does not apply")
@@ -89,12 +89,12 @@ def machine() -> Dict[str, Any]:
         raise symnum.HarnessError("call structure convert -> _plan_conversion -> _find_path changed")
     # caches outside conversions.py must not read the declaration tables
     other = analyse(INIT)
-    leaking = [n for n, d in other.items() if d["cached"] and d["reads"] & TABLES]
-    if leaking:
-        raise symnum.HarnessError(f"cached functions in __init__.py read the declaration tables: {leaking}")
+    generic += sorted(n for n, d in other.items() if d["cached"] and d["reads"] & TABLES)
     if set(writers) != {"equate", "translate"}:
         raise symnum.HarnessError(f"writers of the declaration tables changed: {writers}")
     return {"cached": cached, "writers": writers, "clears": clears,
+            "generic_caches": generic,
+            "generic_cleared": {c: {w: c in clears[w] for w in writers} for c in generic},
             "path_cached": "_find_path" in cached, "plan_cached": "_plan_conversion" in cached,
             "path_cleared": {w: "_find_path" in clears[w] for w in writers},
             "plan_cleared": {w: "_plan_conversion" in clears[w] for w in writers},
@@ -187,12 +187,97 @@ def search(mc: Dict[str, Any], N: int, L: int, timeout_ms: int) -> Dict[str, Any
     return out
 
 
+def search_generic(mc: Dict[str, Any], N: int, L: int, timeout_ms: int) -> Dict[str, Any]:
+    """Cached readers of the tables other than the two the precise model knows: each is taken to
+    memoise, per unit, something computed from that unit's row of the tables.  A query on (a, b)
+    looks up the entries of a and b; an entry filled before the row last changed and not cleared
+    by the writer is a stale read."""
+    t0 = time.time()
+    S = z3.Solver()
+    S.set("timeout", timeout_ms)
+    caches = mc["generic_caches"]
+    ver = [[z3.Int(f"ver{t}_{u}") for u in range(N)] for t in range(L + 1)]
+    st = [{c: [z3.Int(f"st{t}_{c}_{u}") for u in range(N)] for c in caches} for t in range(L + 1)]
+    kind = [z3.Int(f"kind{t}") for t in range(L)]
+    a = [z3.Int(f"a{t}") for t in range(L)]
+    b = [z3.Int(f"b{t}") for t in range(L)]
+    stale = []
+    for u in range(N):
+        S.add(ver[0][u] == 0, *[st[0][c][u] == -1 for c in caches])
+    for t in range(L):
+        S.add(kind[t] >= 0, kind[t] <= 2, a[t] >= 0, a[t] < N, b[t] >= 0, b[t] < N, a[t] != b[t])
+        touched = lambda u: z3.Or(a[t] == u, b[t] == u)
+        decl, q, tran = kind[t] == 0, kind[t] == 1, kind[t] == 2
+        for u in range(N):
+            S.add(ver[t + 1][u] == z3.If(z3.And(z3.Or(decl, tran), touched(u)), ver[t][u] + 1, ver[t][u]))
+            for c in caches:
+                keep = st[t][c][u]
+                after_d = z3.IntVal(-1) if mc["generic_cleared"][c]["equate"] else keep
+                after_t = z3.IntVal(-1) if mc["generic_cleared"][c]["translate"] else keep
+                after_q = z3.If(z3.And(touched(u), keep == -1), ver[t][u], keep)
+                S.add(st[t + 1][c][u] == z3.If(decl, after_d, z3.If(tran, after_t, after_q)))
+                stale.append((t, c, u, z3.And(q, touched(u), keep != -1, keep != ver[t][u])))
+    if not stale:
+        return {"result": "unsat", "N": N, "L": L, "solver_s": 0.0, "state_vars": 0}
+    S.add(z3.Or(*[s_ for *_, s_ in stale]))
+    res = str(S.check())
+    out: Dict[str, Any] = {"result": res, "N": N, "L": L, "solver_s": 0.0,
+                           "state_vars": (L + 1) * N * (1 + len(caches)) + 3 * L, "histories": []}
+    # every stale-read history within the bound, up to renaming of the units (the stale unit is
+    # renamed 0, its partner in the last query 1, further units in order of appearance)
+    seen: Set[Any] = set()
+    S.push()
+    S.add(*[k != 2 for k in kind])          # histories without translate first
+    phase = 0
+    while len(seen) < 64:
+        if str(S.check()) != "sat":
+            if phase == 1:
+                break
+            phase = 1
+            S.pop()
+            continue
+        m = S.model()
+        ev = lambda x: m.eval(x, model_completion=True).as_long()
+        bad, cache, u = next((t, c, u) for t, c, u, s_ in stale if z3.is_true(m.eval(s_, model_completion=True)))
+        S.add(z3.Or(*[z3.Or(kind[t] != ev(kind[t]), a[t] != ev(a[t]), b[t] != ev(b[t])) for t in range(bad + 1)]))
+        ren = {u: 0}
+        last = (ev(a[bad]), ev(b[bad]))
+        ren[last[0] if last[1] == u else last[1]] = 1
+        hist = []
+        for t in range(bad + 1):
+            k, x, y = ev(kind[t]), ev(a[t]), ev(b[t])
+            for z in (x, y):
+                ren.setdefault(z, len(ren))
+            hist.append(("declare", ren[x], ren[y], 3) if k == 0 else
+                        ("translate", ren[x], ren[y], 7) if k == 2 else ("query", ren[x], ren[y]))
+        if (cache, tuple(hist)) not in seen:
+            seen.add((cache, tuple(hist)))
+            out["histories"].append((cache, hist))
+    out["solver_s"] = time.time() - t0
+    return out
+
+
 REPLAY_LIB = r'''
 import json, sys
 import measured
 from measured import Length, conversions
+SHAPE = "length"
+def units(tag):
+    from measured import Area, Force, Energy
+    from measured.si import Meter, Newton, Second, Kilogram, Joule
+    from measured.us import Foot, Pound
+    if SHAPE == "length":
+        return [Length.unit(f"c08-{tag}-{i}", f"c08-{tag}-{i}") for i in range(4)]
+    if SHAPE == "area":     # a named unit of a derived dimension, compound target, compound anchor
+        return [Area.unit(f"c08-{tag}-0", f"c08-{tag}-0"), Foot**2, Meter**2, Area.unit(f"c08-{tag}-3", f"c08-{tag}-3")]
+    if SHAPE == "force":
+        return [Force.unit(f"c08-{tag}-0", f"c08-{tag}-0"), Pound * Foot / Second**2, Newton,
+                Force.unit(f"c08-{tag}-3", f"c08-{tag}-3")]
+    if SHAPE == "energy":
+        return [Energy.unit(f"c08-{tag}-0", f"c08-{tag}-0"), Kilogram * Foot**2 / Second**2, Joule,
+                Energy.unit(f"c08-{tag}-3", f"c08-{tag}-3")]
 def run(history, tag):
-    us = [Length.unit(f"c08-{tag}-{i}", f"c08-{tag}-{i}") for i in range(4)]
+    us = units(tag)
     out = None
     for op in history:
         if op[0] == "declare":
@@ -210,10 +295,13 @@ def run(history, tag):
 '''
 
 
-def replay(history: List[Tuple]) -> str:
+SHAPES = ("length", "area", "force", "energy")
+
+
+def replay(history: List[Tuple], shape: str = "length") -> str:
     return f"""import subprocess, json
 HISTORY = {history!r}
-LIB = {REPLAY_LIB!r}
+LIB = {REPLAY_LIB.replace('SHAPE = "length"', 'SHAPE = ' + repr(shape))!r}
 def fresh_process(hist, tag):
     code = LIB + "\\nprint(json.dumps(run(" + repr(hist) + ", " + repr(tag) + ")))"
     p = subprocess.run([sys.executable, "-c", code], capture_output=True, text=True)
@@ -408,6 +496,48 @@ def main(tier: str, selftest_cases: int = 0) -> int:
                           f"{'fails' if r['implemented'] == EMPTY else r['implemented']} but the declarations "
                           f"alone give {'fails' if r['specified'] == EMPTY else r['specified']}",
                           replay(r["history"]))
+            break
+    if mc["generic_caches"]:
+        for (N, L) in bounds:
+            r = search_generic(mc, N, L, 120000)
+            rep.merge_stats(queries=1, solver_s=r["solver_s"])
+            states += r["state_vars"]
+            transitions += L
+            name = f"other cached readers {mc['generic_caches']}: histories of <= {L} steps over {N} units"
+            if r["result"] != "sat" or not r["histories"]:
+                rep.ob("unsat" if r["result"] == "unsat" else "unknown", name, ("generic", N, L))
+                continue
+            # each abstract history is replayed in every concrete shape of units (fresh processes,
+            # in parallel); the first that shows the difference on the real library is reported
+            from concurrent.futures import ThreadPoolExecutor
+
+            os.makedirs(report.REPLAY_DIR, exist_ok=True)
+            jobs = [(c, h, shape) for c, h in r["histories"] for shape in SHAPES]
+
+            def probe(job: Tuple) -> bool:
+                c, h, shape = job
+                tmp = os.path.join(report.REPLAY_DIR, f"_c08_probe_{abs(hash((c, str(h), shape)))}.py")
+                with open(tmp, "w") as f:
+                    f.write("import sys\n" + replay(h, shape))
+                ok, _ = report.run_replay(tmp)
+                os.remove(tmp)
+                return ok
+
+            with ThreadPoolExecutor(16) as tp:
+                oks = list(tp.map(probe, jobs))
+            verdict = "unknown"
+            for (c, h, shape), ok in zip(jobs, oks):
+                if ok:
+                    replayed += 1
+                    rep.violation(f"C08:stale-{c}", f"history {h} on {shape} units: the cached {c} is not "
+                                  f"cleared by every writer of the tables and the last query answers "
+                                  f"differently from a fresh process", replay(h, shape))
+                    verdict = "sat"
+                    break
+            rep.ob(verdict, name + ("" if verdict == "sat" else f" (stale read possible in the model; none of "
+                                    f"{len(jobs)} concretisations shows a different answer)"), ("generic", N, L))
+            rep.sample({"generic": mc["generic_caches"], "N": N, "L": L, "histories": len(r["histories"]),
+                        "verdict": verdict})
             break
     construction_order(rep, tier)
     rep.functions.update(["measured.conversions.equate", "measured.conversions.translate",
